@@ -1,10 +1,13 @@
 import GoDcp.Driver.All
 import GoDcp.Driver.Session
+import GoDcp.Driver.Life
 
 open GoDcp.Driver
 
 structure DState where
   sess : GoDcp.St := {}
+  life : GoDcp.Life.LSt := {}
+  lmon : LMon := {}
 
 /-- one protocol line: `OP[<TAB>REAL]` ↦ `MODEL<TAB>VERDICT` -/
 def handle (st : DState) (line : String) : DState × String :=
@@ -17,6 +20,9 @@ def handle (st : DState) (line : String) : DState × String :=
   | c :: args =>
     match sessionLine st.sess (c :: args) with
     | some (s', out) => ({ st with sess := s' }, s!"{out}\t-")
+    | none =>
+    match lifeLine st.life st.lmon (c :: args) real with
+    | some (l', m', out, v) => ({ st with life := l', lmon := m' }, s!"{out}\t{v}")
     | none =>
       match allHandlers.lookup c with
       | none => (st, "bad-op\t-")
